@@ -33,11 +33,13 @@ def confirm(wt, n, sid):
     shutil.copy(os.path.join(d, "demo.rs"), os.path.join(wt, "tests", "seeded_demo.rs"))
     extra = meta.get("demo_command")
     flags = " --no-default-features" if "--no-default-features" in str(meta.get("demo_command", "")) else ""
-    c1, o1 = sh(f"cargo test --offline{flags} --test seeded_demo 2>&1", cwd=wt, timeout=1800); ran.append(f"with patch: cargo test --offline{flags} --test seeded_demo")
+    if "--release" in str(meta.get("demo_command", "")):
+        flags += " --release"
+    c1, o1 = sh(f"cargo test --offline{flags} --test seeded_demo 2>&1", cwd=wt, timeout=3600); ran.append(f"with patch: cargo test --offline{flags} --test seeded_demo")
     demo_fails_with = c1 != 0
     # (b) without
     sh("git checkout -- src", cwd=wt)
-    c2, o2 = sh(f"cargo test --offline{flags} --test seeded_demo 2>&1", cwd=wt, timeout=1800); ran.append(f"without patch: cargo test --offline{flags} --test seeded_demo")
+    c2, o2 = sh(f"cargo test --offline{flags} --test seeded_demo 2>&1", cwd=wt, timeout=3600); ran.append(f"without patch: cargo test --offline{flags} --test seeded_demo")
     demo_passes_without = c2 == 0
     sh("rm -f tests/seeded_demo.rs; git checkout -- .", cwd=wt)
     meta["confirmed"] = {"existing_suite_passes_with_patch": suite_ok, "suite_ok_result_lines": ok, "demo_fails_with_patch": demo_fails_with, "demo_passes_without_patch": demo_passes_without,
